@@ -17,8 +17,8 @@ pub fn def() -> CheckDef {
     CheckDef {
         id: "C04",
         level: "exploration",
-        runs_quick: 150_000,
-        runs_thorough: 3_000_000,
+        runs_quick: 600_000,
+        runs_thorough: 20_000_000,
         rule: "seeded apply/seek histories on the six Ctr* byte-stream aliases and ks/set_block_pos histories on CtrCore, over the harness cipher (block sizes: multiples of the counter size incl. multi-chunk nonces and 240..252-byte blocks; width per call from {1,2,3,5,8}) or AES-128/Magma/Kuznyechik; IV counter fields biased to 0, 1, 2^k-1, 2^w-1-k; start positions small, near 2^32 bytes, near 2^36, near the end of the keystream; every block crossing the cipher seam must equal layout(IV, i) and output must be input XOR E(layout). distinct = distinct (flavour, front end, block size, cipher, policy, op/form/offset-class sequence); non-trivial = >= 1 keystream byte",
         required_probes: &["counter_field_wraps", "multi_chunk_nonce", "block_index_ge_2_32", "par_keystream_block", "seek_inside_block", "le_flavour", "ctr64le", "ctr128le", "set_block_pos"],
         r#gen,
